@@ -113,7 +113,20 @@ public:
       break;
     case OP_SDIV:
       if (k != 0) {
+        // x = y / k (truncated division) is not invertible unless
+        // |k| = 1: y = x * k + r for some r with |r| <= |k| - 1.
         dom.apply(OP_MULTIPLICATION, y, x, k);
+        if (!(k == number_t(1)) && !(k == number_t(-1))) {
+          auto &vfac = const_cast<varname_t *>(&(x.name()))->get_var_factory();
+          variable_t r(vfac.get(), x.get_type());
+          number_t max_r = (k < number_t(0) ? -k : k) - number_t(1);
+          dom += linear_constraint_t(linear_expression_t(r) - max_r,
+                                     linear_constraint_t::INEQUALITY);
+          dom += linear_constraint_t(-linear_expression_t(r) - max_r,
+                                     linear_constraint_t::INEQUALITY);
+          dom.apply(OP_ADDITION, y, y, r);
+          dom -= r;
+        }
         if (!(x == y)) {
           dom -= x;
         }
